@@ -11,6 +11,7 @@ import SnowModel.Ops.Frames
 import SnowModel.Ops.FlakeStats
 import SnowModel.Ops.Flake
 import SnowModel.Ops.Gen
+import SnowModel.Ops.Snowing
 
 open Lean Snow
 
@@ -24,6 +25,7 @@ def allOps : List (String × Op) :=
   ++ Snow.Ops.flakeStatsOps
   ++ Snow.Ops.flakeOps
   ++ Snow.Ops.genOps
+  ++ Snow.Ops.snowingOps
 
 def handle (line : String) : String :=
   match Json.parse line with
